@@ -367,6 +367,37 @@ def structural_faults(buf, lay):
                 yield sub(o + fo, "<Q", d, "descriptor." + nm)
 
 
+def coordinated_faults(buf, lay):
+    """Multi-field edits of the descriptor block that keep kastore's packing checks satisfied in modular
+    arithmetic (offset -1: the third element is the whole new file)."""
+    items = lay["items"]
+    n = len(items)
+    M = 1 << 64
+
+    def rebuild(key_lens, key_starts, shift, cut_from, cut_to):
+        out = bytearray(buf[:cut_from] + buf[cut_to:])
+        struct.pack_into("<Q", out, 16, (lay["size"] - shift) % M)
+        for k, it in enumerate(items):
+            o = HDR + k * DESC
+            struct.pack_into("<QQQ", out, o + 8, key_starts[k] % M, key_lens[k] % M, (it["array_start"] - shift) % M)
+        return bytes(out)
+
+    for j in sorted({0, 1, n // 2, n - 2} & set(range(n - 1))):
+        kl = items[j]["key_len"]
+        for D in sorted({8 * (kl // 8 + 1), 8 * (kl // 8 + 2), 64}):
+            nxt = items[j + 1]["key_start"]
+            if nxt - D < HDR:
+                continue
+            key_lens = [it["key_len"] for it in items]
+            key_lens[j] = kl - D  # negative: wraps to just under 2^64
+            key_starts = [it["key_start"] - (D if k > j else 0) for k, it in enumerate(items)]
+            yield -1, rebuild(key_lens, key_starts, D, nxt - D, nxt), "descriptor.coordinated_wrap"
+    # every key empty: the key region disappears
+    region = items[0]["array_start"] - lay["key_lo"]
+    yield -1, rebuild([0] * n, [lay["key_lo"]] * n, region, lay["key_lo"], items[0]["array_start"]), \
+        "descriptor.coordinated_empty_keys"
+
+
 PAIRS = [("indexes/edge_insertion_order", "indexes/edge_removal_order"),
          ("edges/metadata", "edges/metadata_offset"), ("migrations/metadata", "migrations/metadata_offset"),
          ("individuals/parents", "individuals/parents_offset")]
@@ -483,10 +514,12 @@ def run_structural(case, ctx):
     ctx.nt(True)
     ctx.label("loader:" + loader)
     only = case.get("only")
-    for off, new, lab in structural_faults(buf, lay):
+    import itertools
+
+    for off, new, lab in itertools.chain(structural_faults(buf, lay), coordinated_faults(buf, lay)):
         if only is not None and [off, list(new)] != only:
             continue
-        data = buf[:off] + new + buf[off + len(new):]
+        data = new if off < 0 else buf[:off] + new + buf[off + len(new):]
         write(path, data)
         ctx.notes["structural:" + lab] = ctx.notes.get("structural:" + lab, 0) + 1
         try:
